@@ -309,7 +309,8 @@ func genCmd(t *rapid.T, m *model) cmd {
 		}
 		return rapid.SampledFrom(services).Draw(t, "svc")
 	}
-	pickTags := func(min int) []string {
+	var pickTags0 func(min int) []string
+	pickTags0 = func(min int) []string {
 		if et != nil && k > 7 && len(et.tags) == 0 && min == 0 {
 			return nil
 		}
@@ -318,6 +319,15 @@ func genCmd(t *rapid.T, m *model) cmd {
 			return append([]string{}, et.tags[:n]...)
 		}
 		return genTags(t, "tag", min)
+	}
+	pickTags := func(min int) []string {
+		ts := pickTags0(min)
+		// a selector may name a tag twice: it still asks for that tag to be present, nothing more
+		if len(ts) > 0 && rapid.IntRange(0, 7).Draw(t, "repeat-a-selector-tag") == 0 {
+			ts = append(ts, ts[rapid.IntRange(0, len(ts)-1).Draw(t, "which")])
+			hx.Class("selector-names-a-tag-twice")
+		}
+		return ts
 	}
 	pickDst := func() string {
 		if et != nil && rapid.IntRange(0, 4).Draw(t, "aimdst") > 0 {
